@@ -35,19 +35,27 @@ Theorem C21_close_no_loss : forall mu st, no_ns (tl (d_frames st)) = true ->
 Proof. intros mu st H. destruct (close_no_loss mu st H) as [A [B _]]. split; assumption. Qed.
 Print Assumptions C21_close_no_loss.
 
-(* programs without nested-property blocks (also in mixins and content blocks):
-   a successful run has swallowed no error, in either style, whatever the fuel *)
-Theorem C21_main : forall fuel compressed p st, program_ns_free p = true ->
+(* since rsass ac4acd7 (at-rule destinations cannot be opened inside a nested-property
+   destination): for EVERY program of the statement subset, every fuel and both styles, a
+   successful run has swallowed no error - the statement at full strength, no known class *)
+Theorem C21_main : forall fuel compressed p st,
   eval_program fuel compressed p = Ok st -> d_lost st = 0%nat.
-Proof. exact ns_free_program. Qed.
+Proof. exact no_error_swallowed. Qed.
 Print Assumptions C21_main.
 
-(* F24: with an at-rule block inside a nested-property block the run succeeds,
-   one error is swallowed and the reached declaration is not in the output *)
-Theorem C21_refuted_ns : exists p,
-  compile FUEL Expanded p = Ok ([], 1%nat) /\ reach_program FUEL p <> [].
-Proof. exists ns_witness. destruct refuted_ns as [A B]. split; [exact A | rewrite B; discriminate]. Qed.
-Print Assumptions C21_refuted_ns.
+(* every statement leaves the stack of open destinations as it found it and swallows nothing *)
+Theorem C21_statement_keeps : forall fuel ms c cenv ctx st s st',
+  wf (d_frames st) = true -> eval_item fuel ms c cenv ctx st s = Ok st' ->
+  shape (d_frames st') = shape (d_frames st) /\ d_lost st' = d_lost st.
+Proof. exact all_keeps. Qed.
+Print Assumptions C21_statement_keeps.
+
+(* the former F24 witness `a{ b:{ @media print{ c:d } } }` is now an error *)
+Theorem C21_nsrule_block_is_error :
+  compile FUEL Expanded (mkProg [] [SRule [SPlain [97]] [SNs [98] None [SMedia [112;114;105;110;116] [SDecl [99] [100]]]]])
+  = Err EInNs.
+Proof. vm_compute. reflexivity. Qed.
+Print Assumptions C21_nsrule_block_is_error.
 
 (* @error: a run that succeeds has not reached an @error, in any statement position
    (rule, nested property, at-rule, @at-root, @if, loop, mixin body, content block) *)
@@ -66,7 +74,5 @@ Theorem C21_loop_error_not_overwritten : forall n ms c cenv ctx st proto bs1 b b
 Proof. exact loop_error_not_overwritten. Qed.
 Print Assumptions C21_loop_error_not_overwritten.
 
-Example ns_free_example :
-  program_ns_free (mkProg [[SRule [SPlain [97]] [SContent]]]
-                          [SRule [SPlain [98]] [SMedia [112] [SDecl [120] [121]]; SInclude 0 (Some [SDecl [122] [119]])]]) = true.
+Example wf_example : wf [FNs [98]; FNs [97]; FRule ([same_leaf [120]], []); FMedia (MName [112]) None []] = true.
 Proof. reflexivity. Qed.
